@@ -227,6 +227,7 @@ structure RsdSt where
   p : MRsd
   tr : Tr
   dead : Bool
+  regets : List Bool     -- what sync.Pool did at each Release + re-get of this history (input of the model)
 
 def rsdOp (st : RsdSt) (op : String) : RsdSt :=
   if st.dead then st else
@@ -240,11 +241,26 @@ def rsdOp (st : RsdSt) (op : String) : RsdSt :=
       | .err e => { st with dead := true, tr := st.tr.emitQuiet st.p.h ("err " ++ mterrStr e) }
       | .panic s => { st with dead := true, tr := st.tr.emitQuiet st.p.h ("PANIC " ++ s) }
       | .oob => { st with dead := true, tr := st.tr.emitQuiet st.p.h "OOB" }
+  | 'R' =>
+    -- Release + NewReaderSkipDecoder: the same pooled decoder (buffer retained, nothing freed), or — when
+    -- sync.Pool did not hand it back — a new one without a buffer (the old one stays in the pool)
+    match st.regets with
+    | false :: rest =>
+      { st with p := ⟨Slice.nil, 0, st.p.src, st.p.h⟩, regets := rest, tr := st.tr.emit st.p.h "reget 0" }
+    | _ :: rest => { st with p := st.p.release, regets := rest, tr := st.tr.emit st.p.h "reget 1" }
+    | [] => { st with p := st.p.release, tr := st.tr.emit st.p.h "reget 1" }
   | 'e' => let h := envStep st.p.h; { st with p := { st.p with h := h }, tr := st.tr.emit h "env" }
   | _ => { st with tr := st.tr.emit st.p.h "bad-op" }
 
-def rsdModel (stream : Bytes) (script : List Resp) (ops : List String) : String :=
-  let st := ops.foldl rsdOp { p := ⟨Slice.nil, 0, ⟨stream, script⟩, initHeap⟩, tr := ⟨[], 0, 0⟩, dead := false }
+/-- the pool's decisions, read off the implementation's trace -/
+def regetBits (impl : String) : List Bool :=
+  (impl.splitOn " / ").filterMap (fun r =>
+    match r.splitOn " " with
+    | "reget" :: b :: _ => some (b != "0")
+    | _ => none)
+
+def rsdModel (stream : Bytes) (script : List Resp) (ops : List String) (regets : List Bool) : String :=
+  let st := ops.foldl rsdOp { p := ⟨Slice.nil, 0, ⟨stream, script⟩, initHeap⟩, tr := ⟨[], 0, 0⟩, dead := false, regets := regets }
   if st.dead then st.tr.render else (st.tr.emit st.p.h "end").render
 
 /-! ## wr: writer histories -/
@@ -472,7 +488,8 @@ def evVerdict (impl : String) : Option String :=
 
 def c09Verdict (impl : String) : String :=
   if hasSub impl "STALE" then "bad:C09:slice-changed"
-  else if hasSub impl "CORRUPT" then "bad:C09:recycled-memory-read"
+  else if hasSub impl "UAF" then "bad:C09:use-after-free"
+  else if hasSub impl "CORRUPT" then "bad:C09:contents"
   else if hasSub impl "CLOBBER" then "bad:C09:region-clobbered"
   else if hasSub impl "caller=changed" then "bad:C09:caller-modified"
   else if hasSub impl "POOLED" then "bad:C09:pool-used-with-cache-disabled"
@@ -523,7 +540,7 @@ def handleMemBase (args : List String) (impl : String) : String × String :=
     | _, _ => ("bad-op", "na")
   | ["rsd", stream, script, ops] =>
     match parseStream stream, parseScript script with
-    | some b, some sc => (rsdModel b sc (parseOps ops), c09Verdict impl)
+    | some b, some sc => (rsdModel b sc (parseOps ops) (regetBits impl), c09Verdict impl)
     | _, _ => ("bad-op", "na")
   | ["wr", kind, sinkfail, ops] =>
     match sinkfail.toNat? with
